@@ -55,10 +55,6 @@ Fixpoint extras_ok (l : list entry) (xs : list extras) : bool :=
   | _, _ => false
   end.
 
-(* mtimes whose rounded value is representable in int64 nanoseconds *)
-Definition mtime_in_range (e : entry) : bool :=
-  (Z.leb (-9223372036500000000) (sint (st_mtime (fst e))) && Z.ltb (sint (st_mtime (fst e))) 9223372036500000000)%Z.
-
 Fixpoint first_bad (l : list entry) (ms : list member) (i : N) : sx :=
   match l, ms with
   | [], [] => SL []
